@@ -58,10 +58,18 @@ def doc_0039(content, rng, all_defenses=None):
     return d
 
 
-def scad_of(content, rng):
-    """(objects, associations) of a .sCAD model: one association element per linked pair, one per entry-point step."""
+def scad_of(content, rng, all_defenses=None):
+    """(objects, associations) of a .sCAD model: one association element per linked pair, one per entry-point step.
+    Defenses left at their default are listed too (alphabetically, as securiCAD does), with a distribution that carries
+    no value or with no distribution at all: value None."""
     name, assets, assocs, atts = content
-    objects = [(i, t, n, [(d[0].upper() + d[1:], v) for d, v in defs]) for i, n, t, defs, ex in assets]
+    objects = []
+    for i, n, t, defs, ex in assets:
+        ev = [(d[0].upper() + d[1:], v) for d, v in defs]
+        if all_defenses is not None and rng.random() < 0.6:
+            given = dict(defs)
+            ev = sorted([(d[0].upper() + d[1:], given.get(d)) for d in all_defenses[i]], key=lambda kv: kv[0])
+        objects.append((i, t, n, ev))
     objects += [(i, 'Attacker', n, []) for i, n, eps in atts]
     rng.shuffle(objects)
     links = []
@@ -87,6 +95,11 @@ def write_scad(path, objects, links):
     for k, (i, t, n, ev) in enumerate(objects):
         out.append(f'  <objects description="" id="{i}" name={quoteattr(n)} metaConcept="{t}" template="false" exportedId="{k + 1}">')
         for d, v in ev:
+            if v is None:
+                out.append(f'    <evidenceAttributes metaConcept="{d}"><evidenceDistribution type="Bernoulli">'
+                           f'<parameters name="probability"/></evidenceDistribution></evidenceAttributes>' if (k + len(d)) % 2 else
+                           f'    <evidenceAttributes metaConcept="{d}"/>')
+                continue
             out.append(f'    <evidenceAttributes metaConcept="{d}"><evidenceDistribution type="Bernoulli">'
                        f'<parameters name="probability" value="{v}"/></evidenceDistribution></evidenceAttributes>')
         out.append('    <evidenceAttributes metaConcept="SomeStep"/>')
@@ -101,7 +114,7 @@ def write_scad(path, objects, links):
 
 
 def c_scad(objects, links) -> str:
-    O = C.clist([f'(mkSO {C.cZ(i)} {C.cstr(t)} {C.cstr(n)} ' + C.clist([f'({C.cstr(d)}, {C.cZ(int(round(v * 1024)))})' for d, v in ev]) + ')'
+    O = C.clist([f'(mkSO {C.cZ(i)} {C.cstr(t)} {C.cstr(n)} ' + C.clist([f'({C.cstr(d)}, {C.cZ(int(round(v * 1024)))})' for d, v in ev if v is not None]) + ')'
                  for i, t, n, ev in objects])
     A = C.clist([f'(mkSA {C.cZ(s)} {C.cZ(t)} {C.cstr(sp)} {C.cstr(tp)})' for s, t, sp, tp in links])
     return f'(mkScad {O} {A})'
@@ -205,7 +218,7 @@ def check(pid: str, tier: str, seed: int):
                 pv.append(f'0.0.39: the legacy loader raised {type(e).__name__} on a model the native loader accepts')
             cases39.append(f'({PMIO.c_content(content)}, {C.cjv(doc)})')
             # ---- securiCAD
-            objects, links = scad_of(content, rng)
+            objects, links = scad_of(content, rng, alld)
             fsc = os.path.join(scratch, 'model.sCAD')
             write_scad(fsc, objects, links)
             formats['sCAD'] = formats.get('sCAD', 0) + 1
